@@ -6,11 +6,9 @@ import (
 
 // H_c19_comb: Coeff / Rank / Unrank from two actors: the shared tables are only read.
 func H_c19_comb() {
-	n := rt.Concrete(rt.IntIn("n", 0, 40))
+	n := rt.Concrete(rt.IntIn("n", 0, 70))
 	k := rt.Concrete(rt.IntIn("k", 0, 4))
 	r := rt.Concrete(rt.IntIn("r", 0, 30))
-	soloC := Coeff(n, k)
-	soloU := Unrank(r, 3)
 	rt.ActorBegin(1)
 	c := Coeff(n, k)
 	u := Unrank(r, 3)
@@ -24,6 +22,9 @@ func H_c19_comb() {
 	cs2 := Coeffs(6)
 	rt.ActorEnd()
 	rt.FootprintCheck()
+	// solo results are computed after the actors so that a lazily filled cache is still cold when they run
+	soloC := Coeff(n, k)
+	soloU := Unrank(r, 3)
 	_, _ = cs, cs2
 	rt.Check(c == soloC && c2 == soloC && rk == r && rk2 == r, "results differ from a solo run")
 	for i := range soloU {
